@@ -8,7 +8,8 @@ import Props.C01b
     and that contains no parallel loop, every fuel, every execution engine (any values, completions reported from
     inside notifications - its own, other outstanding ones, ones in delivery -, from inside service-finished
     notifications) and every history of API calls:
-      * construction raises nothing (`construction_raises_nothing`);
+      * construction raises nothing (`construction_raises_nothing`; with parallel loops too:
+        `construction_raises_nothing_all`);
       * after every call the exception flag is empty, or a failing evaluation of what the engine answered
         (`EvalError`: excluded for well-typed engines by the structural model, C09.no_internal_error), or the model's own
         fuel - or the documented `ValueError` of `detach` for an observer that is not attached.  The model's
@@ -19,9 +20,20 @@ import Props.C01b
 namespace Pfdl.Net.C09
 open Pfdl
 
-theorem construction_raises_nothing (P : Prog) (hc : P.Closed) (hn : ProgNoPloop P) (valid : Bool) (fuel : Nat) :
+theorem construction_raises_nothing (P : Prog) (hc : P.Closed) (hn : ProgNoPloop false P) (valid : Bool) (fuel : Nat) :
     (generate P valid fuel).exc = none ∨ (generate P valid fuel).exc = some "outOfFuel" :=
-  (generate_ginv P hc hn valid fuel).exc
+  generate_exc P hc hn valid fuel
+
+/-- CONSTRUCTION, EVERY ACCEPTED PROGRAM: parallel loops included (the generator invariant with parallel-loop
+    callbacks admitted, `GInv P true`): building the net of a program whose task calls resolve raises nothing, and
+    every callback it registers refers to API objects that exist - a parallel-loop callback to a task that exists -/
+theorem construction_raises_nothing_all (P : Prog) (hc : P.Closed) (valid : Bool) (fuel : Nat) :
+    (generate P valid fuel).exc = none ∨ (generate P valid fuel).exc = some "outOfFuel" :=
+  generate_exc (ap := true) P hc (progNoPloop_true P) valid fuel
+
+theorem construction_callbacks_resolve (P : Prog) (hc : P.Closed) (valid : Bool) (fuel : Nat) :
+    GInv P true none (generate P valid fuel) :=
+  generate_ginv (ap := true) P hc (progNoPloop_true P) valid fuel
 
 /-- what holds between two API calls (the exception flag of the last call aside) -/
 structure Core (C : Array (List (Nat × Cb))) (nt ns : Nat) (s : NS) : Prop where
@@ -36,7 +48,7 @@ def Raised (s : NS) (op : Option Op) : Prop :=
 
 theorem SInv.core {C nt ns} {s : NS} (h : SInv C nt ns s) : Core C nt ns s := ⟨h.cbs, h.nt, h.ns, h.pd, h.aw⟩
 
-theorem step_safe {C : Array (List (Nat × Cb))} {nt ns : Nat} (hC : COk C nt ns) (ee : EE) (fuel : Nat) (s : NS) (op : Op)
+theorem step_safe {P : Prog} {C : Array (List (Nat × Cb))} {nt ns : Nat} (hC : COk P C nt ns) (ee : EE) (fuel : Nat) (s : NS) (op : Op)
     (h : Core C nt ns s) : Core C nt ns (step ee fuel s op).s ∧ Raised (step ee fuel s op).s (some op) := by
   have K := skeeps (ee := ee) hC fuel
   have h0 : SInv C nt ns { s with out := #[], exc := none } := ⟨h.cbs, h.nt, h.ns, h.pd, h.aw, Or.inl rfl⟩
@@ -102,7 +114,7 @@ theorem lastOp_cons (op : Op) (ops : List Op) (d : Option Op) : lastOp (op :: op
     | some x => rfl
 
 /-- after a history: the core invariant, and the exception flag of the last call -/
-theorem history_safe {C : Array (List (Nat × Cb))} {nt ns : Nat} (hC : COk C nt ns) (ee : EE) (fuel : Nat) :
+theorem history_safe {P : Prog} {C : Array (List (Nat × Cb))} {nt ns : Nat} (hC : COk P C nt ns) (ee : EE) (fuel : Nat) :
     ∀ (ops : List Op) (s : NS) (last : Option Op), Core C nt ns s → Raised s last →
       Core C nt ns (runOps ee fuel s ops) ∧ Raised (runOps ee fuel s ops) (lastOp ops last)
   | [], s, last, h, hr => by simpa [runOps, lastOp] using And.intro h hr
@@ -116,11 +128,11 @@ theorem history_safe {C : Array (List (Nat × Cb))} {nt ns : Nat} (hC : COk C nt
 /-- **no look-up error**: for every program whose calls resolve and that has no parallel loop, whatever the engine
     answers and reports and whatever the application calls, the exception flag after the last call is empty, a failing
     evaluation, the model's fuel, or the `ValueError` of a `detach` of an observer that is not attached -/
-theorem no_lookup_error_partial (P : Prog) (hc : P.Closed) (hn : ProgNoPloop P) (valid : Bool) (fuel0 fuel : Nat)
+theorem no_lookup_error_partial (P : Prog) (hc : P.Closed) (hn : ProgNoPloop false P) (valid : Bool) (fuel0 fuel : Nat)
     (ee : EE) (ops : List Op) :
     Raised (runOps ee fuel (generate P valid fuel0) ops) (lastOp ops none) := by
   have hg := generate_ginv P hc hn valid fuel0
-  have hC : COk (generate P valid fuel0).cbs (generate P valid fuel0).tasks.size (generate P valid fuel0).svcs.size := hg.cbOk
+  have hC : COk P (generate P valid fuel0).cbs (generate P valid fuel0).tasks.size (generate P valid fuel0).svcs.size := hg.cbOk
   have hcore : Core (generate P valid fuel0).cbs (generate P valid fuel0).tasks.size (generate P valid fuel0).svcs.size (generate P valid fuel0) := by
     refine ⟨rfl, rfl, rfl, hg.pd, ?_⟩
     intro u hu
@@ -137,18 +149,18 @@ theorem no_lookup_error_partial (P : Prog) (hc : P.Closed) (hn : ProgNoPloop P) 
   have hr : Raised (generate P valid fuel0) none := by
     rcases hg.exc with he | he
     · exact Or.inl (Or.inl he)
-    · exact Or.inl (Or.inr (Or.inr he))
+    · exact Or.inl (Or.inr (Or.inr he.2))
   exact (history_safe hC ee fuel ops _ none hcore hr).2
 
 /-- with acceptance: the calls of an accepted program resolve (`accepted_erasure_closed`), so for every accepted
     program without parallel loops the net-level scheduler raises no look-up error -/
 theorem accepted_no_lookup_error_partial (p : Check.Prog) (F : Fill) (hacc : Check.accepts p = true)
-    (hn : ProgNoPloop (erase F p)) (valid : Bool) (fuel0 fuel : Nat) (ee : EE) (ops : List Op) :
+    (hn : ProgNoPloop false (erase F p)) (valid : Bool) (fuel0 fuel : Nat) (ee : EE) (ops : List Op) :
     Raised (runOps ee fuel (generate (erase F p) valid fuel0) ops) (lastOp ops none) :=
   no_lookup_error_partial _ (accepted_erasure_closed F p hacc) hn valid fuel0 fuel ee ops
 
 /-- the hypotheses are met by the order of `Props/C01b.lean` (Parallel block, loops, conditions, called tasks) -/
-example : Pfdl.Net.C01.richOrder.Closed ∧ ProgNoPloop Pfdl.Net.C01.richOrder := by
+example : Pfdl.Net.C01.richOrder.Closed ∧ ProgNoPloop false Pfdl.Net.C01.richOrder := by
   constructor
   · intro t ht
     simp only [Pfdl.Net.C01.richOrder, List.mem_cons, List.mem_singleton, List.not_mem_nil, or_false] at ht
